@@ -5,11 +5,10 @@
 
    NOT covered by a theorem (checked on the implementation by harness/c13.py only): the dual plaquette
    census on closed lattices with crossing-free dual drawing; "the new polygon as an extra plaquette and
-   every old plaquette enlarged by one side per truncated corner" (truncate_faces); "corners have degree 3,
-   degrees unchanged elsewhere" (follows from the closed form trunc_spec but is not stated here);
+   every old plaquette enlarged by one side per truncated corner" (truncate_faces);
    plot_dual == make_dual; the half-cell precondition itself is evaluated per input by the harness. *)
 From Coq Require Import List ZArith Bool Arith QArith.
-From Koala Require Import Model.Lattice Model.Dual Model.Truncate Proofs.DualFacts Proofs.TruncateFacts.
+From Koala Require Import Model.Lattice Model.Dual Model.Truncate Proofs.DualFacts Proofs.TruncateFacts Proofs.TruncateDegrees.
 Import ListNotations.
 
 (* ------------------------------------------------------------------ dual *)
@@ -132,6 +131,18 @@ Theorem C13_truncate_vectors : forall (L : lattice) (vs : option (list nat)),
                         (outvec L v (nth u (sorted_adj L v) 0%nat))).
 Proof. exact truncate_vectors. Qed.
 Print Assumptions C13_truncate_vectors.
+
+(* clause "unchanged degrees elsewhere" (and: every new corner has degree 3).  Degree = count_ends of
+   Model/Lattice.v = number of edge ends at the vertex = vertices.coordination_numbers *)
+Theorem C13_truncate_degrees : forall (L : lattice) (vs : option (list nat)),
+  wf_lattice L = true -> no_self_loops L = true ->
+  exists L', vertices_to_polygon L vs = Some L' /\
+    (forall v u, (v < nV L)%nat -> is_truncated L vs v = true -> (u < length (sorted_adj L v))%nat ->
+       count_ends L' (base_index L vs v + u) = 3%nat) /\
+    (forall v, (v < nV L)%nat -> is_truncated L vs v = false ->
+       count_ends L' (base_index L vs v) = count_ends L v).
+Proof. exact truncate_degrees. Qed.
+Print Assumptions C13_truncate_degrees.
 
 (* ------------------------------------------------------------------ non-vacuity *)
 (* the 2x2 square lattice (4 vertices of degree 4 on the torus, all edges crossing-free or wrapping):
